@@ -23,6 +23,15 @@ CHECKS = {
         'answer-by-answer from the recorded trace must all agree with the original.',
    note=CTE_NOTE + ' The per-execution node-hash counter travels with the pickle (identity-hash order is neutralised).',
    technique='stateless choice-tree exploration with trace replay of the mutations on the reloaded program'),
+ 'C15': dict(engine='DRV', category='model_checking', design_ref='5 C15',
+   text='The real driver (gen_program, check_oracle, update_stats, _run, run, run_parallel) is run on every scripted '
+        'session within the bounds: 7 (thorough 9) program behaviours per program x batch layouts up to 3 programs per '
+        'batch / 3 batches x compiler crash per batch x sequential and worker-pool mode, and for each session every '
+        'schedule of a virtual pool (all completion orders) and of package-name draws. Each complete run is compared '
+        'with a reference decision table (faults, messages, saved test cases, leftovers, counters, json files).',
+   note='Trusted: scripted compiler/program stages, the virtual pool (oracle tasks complete only at apply_async/get/join; '
+        'pickle at the boundary), the 100-line reference model. At most 2 package-name reuses per session.',
+   technique='exhaustive enumeration of scripted sessions x all schedules (stateless exploration with a virtual pool) against a reference decision table'),
  'C16': dict(engine='HBFS', category='model_checking', design_ref='5 C16',
    text='Explicit-state BFS over all add/remove histories of the real Context (96-event alphabet to depth 3, 32-event '
         'alphabet deeper; thorough: depth 4 / 5 / 7), lock-step with a scoped-map reference model written from the '
@@ -54,6 +63,8 @@ ENGINES = [
   'kind_free_text': 'stateless deviation-bounded explorer of the choice tree of the real pipeline (ChoiceSource replaces src.utils.random.r)'},
  {'name': 'exhaustive-graphs', 'path': 'mc/props/c19.py', 'serves_properties': ['C19'],
   'kind_free_text': 'enumeration of all digraphs up to 4 (5) vertices'},
+ {'name': 'DRV', 'path': 'mc/drv.py', 'serves_properties': ['C15'],
+  'kind_free_text': 'closed-system harness around hephaestus.py: scripted compiler and stages, virtual mp.Pool with explorer-chosen completion order'},
  {'name': 'HBFS', 'path': 'mc/props/c16.py', 'serves_properties': ['C16', 'C11'],
   'kind_free_text': 'explicit-state breadth-first search over operation histories, real object vs reference model'},
 ]
